@@ -15,6 +15,41 @@ PY_KEYWORDS = ["class", "pass", "assert", "async", "await", "break", "continue",
 PY_BUILTINS = ["property", "len", "id", "object", "str", "int", "print", "sys", "float", "dict", "none"]
 
 
+def agg_levels(body):
+    """("aggregate", kind, lo, hi, base) with base a name or another such tuple/list -> ([(kind, lo, hi), …], leaf name)"""
+    levels = []
+    while not isinstance(body, str):
+        levels.append((body[1], body[2], body[3]))
+        body = body[4]
+    return levels, body
+
+
+def agg_express(body):
+    levels, leaf = agg_levels(body)
+    return " OF ".join(f"{k} [{lo}:{'?' if hi is None else hi}]" for k, lo, hi in levels) + " OF " + leaf
+
+
+def agg_tokens(body):
+    levels, leaf = agg_levels(body)
+    return " ".join(f"{k} {lo} {'?' if hi is None else hi}" for k, lo, hi in levels) + " " + leaf
+
+
+def agg_with_leaf(body, leaf):
+    if isinstance(body, str):
+        return leaf
+    return (body[0], body[1], body[2], body[3], agg_with_leaf(body[4], leaf))
+
+
+def random_agg(rng, leaf, depth):
+    body = leaf
+    for _ in range(depth):
+        k = rng.choice(["ARRAY", "LIST", "BAG", "SET"])
+        lo = rng.randrange(0, 3)
+        hi = lo + rng.randrange(0, 4) if (k == "ARRAY" or rng.random() < 0.6) else None
+        body = ("aggregate", k, lo, hi, body)
+    return body
+
+
 class Attr:
     def __init__(self, name, kind, typ, init=None, inv=None):
         self.name, self.kind, self.typ, self.init, self.inv = name, kind, typ, init, inv   # kind: e o d i
@@ -60,8 +95,7 @@ class Schema:
             elif b[0] in ("renum", "rselect"):
                 rhs = b[1]                       # TYPE t = <enumeration or select type>: a rename
             else:
-                _, k, lo, hi, base = b
-                rhs = f"{k} [{lo}:{'?' if hi is None else hi}] OF {base}"
+                rhs = agg_express(b)
             out.append(f"TYPE {t.name} = {rhs}; END_TYPE;")
         for e in self.entities:
             head = f"ENTITY {e.name}"
@@ -100,7 +134,7 @@ class Schema:
                 content = r.body[1] if r.body[0] in ("enum", "select") else b[2]
                 out.append(f"type {t.name} {'enum' if b[0] == 'renum' else 'select'} " + " ".join(content))
             elif b[0] == "aggregate":
-                out.append(f"type {t.name} aggregate {b[1]} {b[2]} {'?' if b[3] is None else b[3]} {b[4]}")
+                out.append(f"type {t.name} aggregate " + agg_tokens(b))
             elif b[0] == "boolean" or (b[0] == "defined" and self._root_kind(b[1]) == "boolean"):
                 # BOOLEAN is emitted as the alias `t = bool`; a rename of such a type is the same alias (the same object)
                 out.append(f"type {t.name} boolean")
@@ -373,4 +407,74 @@ def gen_rename_chain(rng, idx, kind, depth):
     user.attrs = [Attr(nm[depth + 5], rng.choice("eo"), nm[rng.randrange(depth)])]
     s.entities.append(user)
     rng.shuffle(s.types)
+    return s
+
+
+def gen_nested_aggregates(rng, idx):
+    """defined TYPEs and attribute types that are aggregates of aggregates (depth 1-3) over simple types, named defined
+    types, entities, enumerations and selects"""
+    s = Schema(f"g{idx}")
+    nm = _names(rng, 24)
+    lab, en, ent, ent2, sel = nm[0], nm[1], nm[2], nm[3], nm[4]
+    s.types.append(TypeDef(lab, ("simple", rng.choice(sorted(SIMPLE)))))
+    s.types.append(TypeDef(en, ("enum", [nm[5], nm[6]])))
+    e1 = Entity(ent, []); e1.attrs = [Attr(nm[7], "e", "INTEGER")]
+    e2 = Entity(ent2, [ent] if rng.random() < 0.5 else [])
+    s.entities += [e1, e2]
+    s.types.append(TypeDef(sel, ("select", [ent, ent2])))
+    leaves = sorted(SIMPLE) + ["BOOLEAN", lab, lab, en, ent, ent2, sel]
+    k = 8
+    for _ in range(rng.randrange(2, 5)):
+        s.types.append(TypeDef(nm[k], random_agg(rng, rng.choice(leaves), rng.choice([1, 2, 2, 3])))); k += 1
+    holder = Entity(nm[k], []); k += 1
+    for _ in range(rng.randrange(1, 4)):
+        body = random_agg(rng, rng.choice(leaves), rng.choice([1, 2, 2, 3]))
+        holder.attrs.append(Attr(nm[k], rng.choice("eo"), agg_express(body))); k += 1
+    # an attribute typed by a named aggregate type, and an aggregate over a named aggregate type
+    aggs = [t.name for t in s.types if t.body[0] == "aggregate"]
+    holder.attrs.append(Attr(nm[k], "e", rng.choice(aggs))); k += 1
+    s.entities.append(holder)
+    rng.shuffle(s.types)
+    return s
+
+
+def gen_diamond_dag(rng, idx):
+    """inheritance DAGs of depth up to 4 with diamonds at every level: entities below a diamond bottom, stacked diamonds,
+    a diamond bottom as first / second supertype; every entity declares explicit attributes"""
+    s = Schema(f"d{idx}")
+    nm = _names(rng, 60)
+    k = 0
+
+    def ent(supers):
+        nonlocal k
+        e = Entity(nm[k], supers); k += 1
+        for _ in range(rng.choice([1, 1, 2])):
+            e.attrs.append(Attr(nm[k], rng.choice("eeo"), rng.choice(["INTEGER", "REAL", "STRING"]))); k += 1
+        if rng.random() < 0.2:
+            e.attrs.append(Attr(nm[k], "d", "INTEGER", init="1")); k += 1
+        s.entities.append(e)
+        return e.name
+    root = ent([])
+    tops = [root]
+    bottoms = []
+    for level in range(rng.randrange(1, 3)):
+        top = rng.choice(tops)
+        l, r = ent([top]), ent([top])
+        extra = [ent([])] if rng.random() < 0.3 else []
+        sup = [l, r] + extra
+        rng.shuffle(sup)
+        b = ent(sup)                      # the bottom of a diamond
+        bottoms.append(b)
+        tops = [b, l, r]                  # the next diamond may stand on this bottom (stacked) or on a side
+    for b in list(bottoms):
+        shape = rng.randrange(4)
+        if shape == 0:
+            ent([b])                                      # single inheritance below a diamond bottom
+        elif shape == 1:
+            ent([ent([]), b])                             # diamond bottom as second supertype
+        elif shape == 2:
+            ent([b, ent([])])                             # ... as first
+        else:
+            c = ent([b])
+            ent([ent([c]), ent([c])])                     # a second diamond hanging below the first
     return s
